@@ -47,8 +47,10 @@ func main() {
 						continue
 					}
 					if *explain && strings.Contains(o.Name, *only) {
-						for _, l := range ctx.Explain(sc, o) {
-							fmt.Println("        ", l)
+						for i, l := range ctx.Explain(sc, o) {
+							if i < 6 {
+								fmt.Println("        ", l)
+							}
 						}
 					}
 				}
